@@ -47,7 +47,8 @@ class C13(CtxCheck):
 
     # ---- scenario units (deterministic, outside the BFS) ---------------------------------------------------
     def units(self, tier: str, seed: int) -> list:
-        return super().units(tier, seed) + [{"orphan": kind, "gc": g} for kind in ("root", "nested") for g in (False, True)]
+        return (super().units(tier, seed) + [{"orphan": kind, "gc": g} for kind in ("root", "nested") for g in (False, True)]
+                + [{"orphan": "cross-task", "gc": False}])
 
     def work(self, unit: dict, tier: str) -> dict:
         if "orphan" in unit:
@@ -89,6 +90,35 @@ class C13(CtxCheck):
                     if unit["gc"]:
                         gc.collect()
 
+            if unit["orphan"] == "cross-task":
+                # a (non-root) context entered by one task and left by another one: however that ends, afterwards the context is closed
+                async with Context():
+                    sess = Context()
+                    entered = anyio.Event()
+
+                    async def opener() -> None:
+                        await sess.__aenter__()
+                        entered.set()
+
+                    async with anyio.create_task_group() as tg:
+                        tg.start_soon(opener)
+                        await entered.wait()
+                    try:
+                        await sess.__aexit__(None, None, None)
+                    except BaseException:  # noqa: BLE001 - (which error, if any, is not the point)
+                        pass
+                    if not sess.closed:
+                        fails.append(("lifecycle", "after the block of a context had been left (from another task) `closed` is false"))
+                    for what, fn in (("add_resource", lambda: sess.add_resource(object(), "late")), ("add_teardown_callback", lambda: sess.add_teardown_callback(lambda: None)),
+                                     ("get_resource_nowait", lambda: sess.get_resource_nowait(int, optional=True))):
+                        try:
+                            fn()
+                            fails.append(("lifecycle", f"{what}() was accepted by a context whose block has been left"))
+                        except RuntimeError:
+                            pass
+                        except BaseException as e:  # noqa: BLE001
+                            fails.append(("lifecycle", f"{what}() on a left context raised {e!r} instead of RuntimeError"))
+                return
             try:
                 if unit["orphan"] == "nested":
                     async with Context():
